@@ -5,7 +5,7 @@
    r_run = CPXRouter (Arrive = one iteration of run(), Recv f = receivePacket(f, timeout));
    sys_run = router on the real transport; tunnel_tx/tunnel_rx = Tcp/SerialDriver.send_packet and
    _CPXReceiveThread.run; chunking s b = s cuts b into consecutive non-empty pieces. *)
-From CF Require Import Common.Bytes C18.Model C18.Proofs.
+From CF Require Import Common.Bytes C18.Model C18.Proofs C18.Uart.
 Open Scope Z_scope.
 
 (* Encoding then decoding returns source, destination, function, last-packet flag and payload intact for
@@ -113,3 +113,51 @@ Theorem C18_crtp_tunnel_loopback : forall h d,
   tunnel_rx (tunnel_tx (k_header (new_crtp h d)) (k_data (new_crtp h d))) = Some (new_crtp h d).
 Proof. exact tunnel_loopback. Qed.
 Print Assumptions C18_crtp_tunnel_loopback.
+
+(* The same re-assembly statement without committing to a list of pieces: against a socket whose every
+   recv(n) may return ANY non-empty prefix of at most n pending bytes (recv_any), any run of
+   `length ps` readPacket calls over the stream of ps (followed by arbitrary further bytes b) returns
+   exactly ps and leaves exactly b; and such runs exist. *)
+Theorem C18_any_recv_behaviour : forall ps b rs b2, Forall wf_cpx ps ->
+  read_n_any (concat (map frame ps) ++ b) rs b2 -> length rs = length ps ->
+  rs = map Ok ps /\ b2 = b.
+Proof. exact any_recv_stream. Qed.
+Print Assumptions C18_any_recv_behaviour.
+
+Theorem C18_any_recv_behaviour_inhabited : forall ps b, Forall wf_cpx ps ->
+  read_n_any (concat (map frame ps) ++ b) (map Ok ps) b.
+Proof. exact any_recv_stream_exists. Qed.
+Print Assumptions C18_any_recv_behaviour_inhabited.
+
+(* ---- serial path (UARTTransport framing: 0xFF, size, wire data, XOR checksum; clear-to-send flow control) ---- *)
+
+(* every packet writePacket accepts (at most 98 payload bytes) is read back intact from the port, checksum
+   accepted, exactly its bytes consumed; writing takes the lock (next write waits for clear-to-send) *)
+Theorem C18_uart_roundtrip : forall p rest lock, wf_cpx p -> zlen (c_data p) <= 98 ->
+  exists bytes, uart_write false p = (WOk bytes, true) /\
+    uart_read (bytes ++ rest) lock = (UPacket (Ok p) true, rest, lock).
+Proof. exact uart_write_read. Qed.
+Print Assumptions C18_uart_roundtrip.
+
+(* a sequence of frames is read back as that sequence *)
+Theorem C18_uart_stream : forall ps rest lock,
+  Forall wf_cpx ps -> Forall (fun p => zlen (c_data p) <= 253) ps ->
+  uart_read_n (length ps) (concat (map uart_frame ps) ++ rest) lock =
+  (map (fun p => UPacket (Ok p) true) ps, rest, lock).
+Proof. exact uart_read_n_frames. Qed.
+Print Assumptions C18_uart_stream.
+
+(* line noise (no 0xFF) before a frame is skipped *)
+Theorem C18_uart_noise_skipped : forall g b lock, Forall (fun x => x <> 255) g ->
+  uart_read (g ++ b) lock = uart_read b lock.
+Proof. exact uart_read_skip_noise. Qed.
+Print Assumptions C18_uart_noise_skipped.
+
+(* CRTP through the serial transport: header and payload unchanged (payload up to 97 bytes; CRTP allows 30) *)
+Theorem C18_uart_crtp_tunnel : forall port chan d rest lock, zlen d <= 97 ->
+  exists bytes, uart_write false (tunnel_tx (crtp_header port chan) d) = (WOk bytes, true) /\
+    uart_read (bytes ++ rest) lock = (UPacket (Ok (tunnel_tx (crtp_header port chan) d)) true, rest, lock) /\
+    tunnel_rx (tunnel_tx (crtp_header port chan) d) =
+      Some (mk_crtp (crtp_header port chan) (Z.land port 15) (Z.land chan 3) d).
+Proof. exact uart_tunnel. Qed.
+Print Assumptions C18_uart_crtp_tunnel.
